@@ -61,16 +61,26 @@ def gen_case(rng, index, tier):
         L.add(gen.entry_nodes(rng, od + '/' + nm, rng.choice(['file', 'tree']),
                               tag + 'o%d' % j))
         others.append(od + '/' + nm)
+    # a twin: another entry with the SAME base name, in another directory of
+    # the same volume (it competes for the same files/N, info/N names)
+    twin_dir = workdirs[v] + '/twin'
+    L.add({'p': twin_dir, 't': 'd'})
+    twin = twin_dir + '/' + os.path.basename(arg['rel'])
+    L.add(gen.entry_nodes(rng, twin, rng.choice(['file', 'tree', 'link_dangling']),
+                          tag + 'twin'))
     hist = []
     for _ in range(rng.choice([0, 0, 1, 2, 3])):
         hist.append(rng.choice(['put-other', 'put-other', 'restore-other',
-                                'rm-other', 'empty-days', 'list']))
+                                'rm-other', 'empty-days', 'list', 'put-twin',
+                                'put-twin']))
+    c01.add_stale(L, rng, [arg], index, p=0.25)
     case = L.desc()
     case['env'] = dict(case['env'], **env_extra)
     case['args'] = [arg]
     case['opts'] = opts
     case['optclass'] = optclass
     case['others'] = others
+    case['twin'] = twin
     case['history'] = hist
     case['remove_parent'] = rng.random() < 0.2
     case['restore_from'] = rng.choice(['orig', 'orig', 'ancestor', 'ancestor',
@@ -140,6 +150,12 @@ def run_case(case):
                                  contracts=ALLC)
                     acc(rr)
                     trashed_others.append(x)
+            elif step == 'put-twin':
+                tw = w.abs(case['twin'])
+                if os.path.lexists(tw):
+                    targs = (['--trash-dir', tdo] if tdo else []) + ['--', tw]
+                    rr = run.run(w, 'put', targs, stdin=b'', contracts=ALLC)
+                    acc(rr)
             elif step == 'restore-other' and trashed_others:
                 x = trashed_others[-1]
                 rl = run.run(w, 'restore', [w.abs(x)], stdin=b'0\n', cwd=w.R,
